@@ -26,6 +26,10 @@ type Action struct {
 	Index  int      `json:"index,omitempty"` // rollback
 	// Idle: under a drawn schedule the action waits until everything earlier has settled
 	Idle bool `json:"idle,omitempty"`
+	// parkat: controller and store call at which the next matching step is held back, and for how many actions
+	Ctl  string `json:"ctl,omitempty"`
+	Op   string `json:"op,omitempty"`
+	Hold int    `json:"hold,omitempty"`
 }
 
 // Describe renders an action.
@@ -37,6 +41,8 @@ func (a Action) Describe() string {
 		return fmt.Sprintf("rollback(%d)", a.Index)
 	case "faults":
 		return fmt.Sprintf("faults(%s, %v)", a.Target, a.Codes)
+	case "parkat":
+		return fmt.Sprintf("parkat(%s before %s, for %d actions)", a.Ctl, a.Op, a.Hold)
 	}
 	return a.Kind + "(" + a.Target + ")"
 }
@@ -183,6 +189,9 @@ func Execute(x *vstat.Ctx, sc Scenario, mon func(r *Run, info StepInfo) error, o
 		return r, err
 	}
 	w.AwaitCalls(10 * time.Second)
+	if w.S.Parked > 0 {
+		x.Class("a step was held back right before a store write while the connection flapped")
+	}
 	return r, nil
 }
 
@@ -227,6 +236,8 @@ func (r *Run) perform(i int, a Action) error {
 		w.Devices[a.Target].RestartEmpty()
 		w.X.Logf("  device %s restarted empty", a.Target)
 		return w.LinkUp(a.Target)
+	case "parkat":
+		w.S.ParkAt = &ParkSpec{Ctl: a.Ctl, Op: a.Op, Hold: a.Hold}
 	case "flapinsync", "restartinsync", "flapinapply", "restartinapply":
 		// armed: carried out at the moment the device next receives a re-synchronisation request
 		r.mu.Lock()
